@@ -28,7 +28,9 @@
      CheckValueDepth     code (trie2): a child TYPED as value ends the walk at any depth, so a node whose
                          hash child is retyped as value "proves" an inner hash as the key's value
    (trie2's hasher.hash trusts nodeFlag.Hash of a proof node; honest nodes returned by Prove carry a
-   correct cache and rebuilt nodes carry none, so the cache never changes a verdict here.) *)
+   correct cache and rebuilt nodes carry none, so the cache never changes a MEMBERSHIP verdict.  It can
+   change a range verdict: VerifyRangeProof cuts subtrees out of the proof nodes and re-hashes them, so
+   there the provenance of honest nodes - with / without cache - is a dimension: RangeProof.tla.) *)
 EXTENDS Trie
 
 CONSTANTS MaxKeys, EmptyTrieVerifies, CheckValueDepth
